@@ -141,16 +141,29 @@ Theorem c14_refuses_iff (F : Type) (K : sp_ops F) (HK : sp_laws K) :
 Proof. exact (gk_refuses_iff F K HK). Qed.
 Print Assumptions c14_refuses_iff.
 
-(** the load vector of the function path: sum w * B_a(x) * x * rho(x) - no factor E *)
+(** the load vector of the function path: sum w * B_a(x) * x * E(x) * rho(x), E = rhoFactor at the points *)
 Theorem c14_rhs_func_spec (F : Type) (K : sp_ops F) (HK : sp_laws K) :
   forall S nc nq pts wts mf rhot lo hi i, (i < hi - lo)%nat ->
   nth i (gk_rhs_func F K S nc nq pts wts mf rhot lo hi) (sp0 K)
   = Sums.sumn F (sp0 K) (spadd K) nc (fun c => Sums.sumn F (sp0 K) (spadd K) nq (fun q =>
-      spmul K (spmul K (spmul K (gk_Wf F K wts mf c q) (gk_phi F K (gka_p F S) (gka_tab F S) 0 (lo + i) c q)) (gk_at F K pts c q))
+      spmul K (spmul K (spmul K (spmul K (gk_Wf F K wts mf c q) (gk_phi F K (gka_p F S) (gka_tab F S) 0 (lo + i) c q)) (gk_at F K pts c q))
+                       (gk_at F K (gka_E F S) c q))
               (gk_at F K rhot c q))).
 Proof. exact (gk_rhs_func_spec F K). Qed.
 Print Assumptions c14_rhs_func_spec.
 
+(** function path = discrete path: when the function rho takes at the quadrature points the values of the
+    spline with coefficients rho_b (sum_b rho_b B_b(x)), _solveModeFunc and _solveMode solve the same system
+    (same matrix, same right-hand side  sum w E rho B_a r) and return the same coefficients *)
+Theorem c14_func_path_eq_discrete_path (F : Type) (K : sp_ops F) (HK : sp_laws K) :
+  forall knots p nc nq pts wts mf At Bt Ct Dt Et S lN uN m buf rho rhot,
+  gk_assemble F K knots p nc nq pts wts mf At Bt Ct Dt Et = SpOk S ->
+  (forall c q, (c < nc)%nat -> (q < nq)%nat ->
+     gk_at F K rhot c q = Sums.sumn F (sp0 K) (spadd K) (nc + p)
+                            (fun b => spmul K (gk_phi F K p (gka_tab F S) 0 b c q) (nth b rho (sp0 K)))) ->
+  gk_solve_mode_func F K S lN uN m buf nc nq pts wts mf rhot = gk_solve_mode F K S lN uN m buf rho.
+Proof. exact (gk_func_path_eq_discrete_path F K HK). Qed.
+Print Assumptions c14_func_path_eq_discrete_path.
 
 (* ------------------------------------------------------------------------------------------------ *)
 (** the executed instance *)
@@ -164,14 +177,14 @@ Definition c14q (n : Z) (d : positive) : Qc := spq_of n d.
 Definition c14_kn : list Qc := [c14q 1 1; c14q 1 1; c14q 1 1; c14q 2 1; c14q 3 1; c14q 3 1; c14q 3 1].
 Definition c14_pts : list (list Qc) := [[c14q 5 4; c14q 7 4]; [c14q 9 4; c14q 11 4]].
 Definition c14_wts : list Qc := [c14q 1 1; c14q 1 1].
-Definition c14_mf : Qc := c14q 1 4.
+Definition c14_mf : list Qc := [c14q 1 4; c14q 1 4].
 Definition c14_cst (v : Qc) : list (list Qc) := [[v; v]; [v; v]].
 Definition c14_ones : list Qc := [c14q 1 1; c14q 1 1; c14q 1 1; c14q 1 1].
 Definition c14_asm (E : Qc) := gkq_assemble c14_kn 2 2 2 c14_pts c14_wts c14_mf
   (c14_cst (c14q (-1) 1)) (c14_cst (c14q 1 2)) (c14_cst (c14q 1 3)) (c14_cst (c14q (-1) 1)) (c14_cst E).
 
 Definition c14_get {A : Type} (d : A) (r : sp_res A) : A := match r with SpOk a => a | _ => d end.
-Definition c14_S2 : gk_asm Qc := Eval vm_compute in c14_get (GkAsm Qc 0 0 [] [] [] [] [] []) (c14_asm (c14q 2 1)).
+Definition c14_S2 : gk_asm Qc := Eval vm_compute in c14_get (GkAsm Qc 0 0 [] [] [] [] [] [] []) (c14_asm (c14q 2 1)).
 
 Example c14_ex_assembles : c14_asm (c14q 2 1) = SpOk c14_S2 /\ gka_nb Qc c14_S2 = 4%nat
   /\ spq_show (gk_stiff Qc spq_ops c14_S2 1 1 2) = (2071%Z, 3072%positive)
@@ -195,20 +208,16 @@ Example c14_ex_refuses :
   /\ gkq_refuses [0%Z; 2%Z] [5%Z] (c14_cst (c14q 0 1)) = false.
 Proof. vm_compute. repeat split. Qed.
 
-(** REFUTED clause ("= E rho" for right-hand sides given as functions): the function path ignores
-    rhoFactor.  With E = 2 and rho = 1 (as a spline: all coefficients 1; as a function: 1 at every point)
-    solveEquation and solveEquationForFunction return different potentials: the first is twice the second. *)
+(** the function path applies rhoFactor (repair c0d120c of /repo; before it the clause "= E rho" was refuted for
+    right-hand sides given as functions): with E = 2 and rho = 1 - as a spline all coefficients 1, as a function 1 at
+    every point - solveEquation and solveEquationForFunction return the same potential *)
 Definition c14_cd : list Qc := Eval vm_compute in c14_get [] (gk_solve_mode Qc spq_ops c14_S2 [] [] 0 [] c14_ones).
 Definition c14_cf : list Qc := Eval vm_compute in
   c14_get [] (gk_solve_mode_func Qc spq_ops c14_S2 [] [] 0 [] 2 2 c14_pts c14_wts c14_mf (c14_cst (c14q 1 1))).
 
-Theorem c14_func_rhs_ignores_E_refuted : exists S cd cf,
-  c14_asm (c14q 2 1) = SpOk S
-  /\ gk_solve_mode Qc spq_ops S [] [] 0 [] c14_ones = SpOk cd
-  /\ gk_solve_mode_func Qc spq_ops S [] [] 0 [] 2 2 c14_pts c14_wts c14_mf (c14_cst (c14q 1 1)) = SpOk cf
-  /\ map spq_show cd <> map spq_show cf
-  /\ map spq_show cd = map (fun v => spq_show (c14q 2 1 * v)%Qc) cf.
-Proof.
-  exists c14_S2, c14_cd, c14_cf. vm_compute. repeat split. discriminate.
-Qed.
-Print Assumptions c14_func_rhs_ignores_E_refuted.
+Example c14_ex_func_rhs_applies_E :
+  gk_solve_mode Qc spq_ops c14_S2 [] [] 0 [] c14_ones = SpOk c14_cd
+  /\ gk_solve_mode_func Qc spq_ops c14_S2 [] [] 0 [] 2 2 c14_pts c14_wts c14_mf (c14_cst (c14q 1 1)) = SpOk c14_cf
+  /\ map spq_show c14_cd = map spq_show c14_cf
+  /\ Qc_eq_bool (nth 1 c14_cd (Q2Qc 0)) (Q2Qc 0) = false.
+Proof. vm_compute. repeat split. Qed.
